@@ -172,10 +172,16 @@ func ParseSPSNALUnit(data []byte, parseVUIBeyondAspectRatio bool) (*SPS, error) 
 	}
 
 	sps.Log2MaxFrameNumMinus4 = reader.ReadExpGolomb()
+	if sps.Log2MaxFrameNumMinus4 > 12 { // Range 0 to 12 according to 7.4.2.1.1
+		return nil, fmt.Errorf("log2_max_frame_num_minus4 %d too big", sps.Log2MaxFrameNumMinus4)
+	}
 	sps.PicOrderCntType = reader.ReadExpGolomb()
 	switch sps.PicOrderCntType {
 	case 0:
 		sps.Log2MaxPicOrderCntLsbMinus4 = reader.ReadExpGolomb()
+		if sps.Log2MaxPicOrderCntLsbMinus4 > 12 { // Range 0 to 12 according to 7.4.2.1.1
+			return nil, fmt.Errorf("log2_max_pic_order_cnt_lsb_minus4 %d too big", sps.Log2MaxPicOrderCntLsbMinus4)
+		}
 	case 1:
 		sps.DeltaPicOrderAlwaysZeroFlag = reader.ReadFlag()
 		sps.OffsetForNonRefPic = reader.ReadExpGolomb()
